@@ -418,6 +418,16 @@ func (o *oracle) attemptEnd(a *addrState, tok attempt, ok bool) {
 			// may not end the current chain
 			simrt.Probe("old_attempt_succeeded_after_reset")
 			a.sLo, a.fLo = 0, 0
+			// two attempts for one address can overlap (Schedule while the first
+			// is still running); a Schedule pending across the second success may
+			// be re-armed from that instant just as from the first one
+			for _, c := range a.slot {
+				if c.deadAt < 0 && (c.kind == "schedule" || c.kind == "driver-connect-failed" || c.kind == "schedule-during-successful-attempt") {
+					simrt.Probe("schedule_carried_over_old_success")
+					a.add(o, "schedule-during-successful-attempt")
+					break
+				}
+			}
 		}
 		return
 	}
